@@ -856,6 +856,16 @@ def lawKeysMerge (hasA hasB hasR : Value) : Bool :=
   | .bool x, .bool y, .bool r => r == (x || y)
   | _, _, _ => false
 
+/-- `to-upper-case(s)` / `to-lower-case(s)`: same number of code points, ASCII letters shifted by 32,
+    every other code point (non-ASCII letters included) unchanged; quotes kept -/
+def lawCaseAscii (s up lo : Value) : Bool :=
+  match strOf s, strOf up, strOf lo with
+  | some (s, q), some (u, qu), some (l, ql) =>
+    (qu == q) && (ql == q) && (u.length == s.length) && (l.length == s.length) &&
+    (s.zip u).all (fun (c, d) => if 'a' ≤ c ∧ c ≤ 'z' then d.toNat + 32 == c.toNat else d == c) &&
+    (s.zip l).all (fun (c, d) => if 'A' ≤ c ∧ c ≤ 'Z' then d.toNat == c.toNat + 32 else d == c)
+  | _, _, _ => false
+
 /-- `map-has-key(m, k)` ⇔ some key of `map-keys(m)` is `== k` (`idx` = `index(map-keys(m), k)`) -/
 def lawHasKeyIndex (has idx : Value) : Bool :=
   match has, idx with
@@ -977,6 +987,7 @@ def handle : List String → String
         | "keys_merge", [a, b, c] => lawAnswer (lawKeysMerge a b c)
         | "get_set", [a, b] => lawAnswer (lawGetSet a b)
         | "has_key_index", [a, b] => lawAnswer (lawHasKeyIndex a b)
+        | "case_ascii", [a, b, c] => lawAnswer (lawCaseAscii a b c)
         | "set_other_path", [a, b] => lawAnswer (lawSetOtherPath a b)
         | "remove_get", [a, b] => lawAnswer (lawRemoveGet a b)
         | "deep_merge_get", [h, a, b, s, g] => lawAnswer (lawDeepMergeGet h a b s g)
